@@ -103,10 +103,12 @@ theorem parseLaidOut_comments (v : Variant) (Y : Layout) (raw : List Token) (n :
     case ok.ok p2 t2 p1 t1 =>
       obtain ⟨rfl, rfl, -⟩ := h1
       by_cases hc : t1.p2.type ≠ cTypeEOF
-      · have he : (errCurr v : PM (List Token) Unit) (cl t1) = errCurr v t1 := rfl
+      · have he : ((if v.leftoverFix then errPeek v 20 else errCurr v) : PM (List Token) Unit) (cl t1) =
+            ((if v.leftoverFix then errPeek v 20 else errCurr v) : PM (List Token) Unit) t1 := by
+          cases v.leftoverFix <;> rfl
         have hc' : (cl t1).p2.type ≠ cTypeEOF := hc
         simp only [if_pos hc, if_pos hc', he]
-        generalize (errCurr v : PM (List Token) Unit) t1 = r
+        generalize ((if v.leftoverFix then errPeek v 20 else errCurr v) : PM (List Token) Unit) t1 = r
         cases r <;> rfl
       · have hc' : ¬ (cl t1).p2.type ≠ cTypeEOF := hc
         simp only [if_neg hc, if_neg hc']
